@@ -400,7 +400,14 @@ async fn run_script(cap: Option<u64>, nmw: u64, events: &[Event], setup: Setup, 
                         }
                     }
                 }
-                if prereleased.remove(&id) {
+                if stalled {
+                    // `stallq`: the handler leaves while the queue is full and the peer still does not read;
+                    // its reply waits for room as long as it takes
+                    let sent = rel_tx.remove(&id).map(|t| t.send(how).is_ok()).unwrap_or(false);
+                    if !sent { return Err("badcase:exit-without-parked-handler".into()); }
+                    tokio::time::sleep(Duration::from_millis(stallq.unwrap_or(0))).await;
+                    stalled = false;
+                } else if prereleased.remove(&id) {
                     // judged from the moment the group was released: replies and panic reports of
                     // the group may arrive in any order
                     from = grp.0;
@@ -663,6 +670,18 @@ fn gen_cases(seed: u64, thorough: bool) -> Vec<String> {
         while !s.live.is_empty() { let h = some_how(&mut rng); s.exit(0, h); }
         s.inline(&mut rng, false);
         out.push(format!("{} oq={} stallq={}", s.line(0), hx(1 + (k as u64) % 3), hx([150u64, 300, 600][k % 3])));
+    }
+    // the same stall, but it is the handler that leaves while the peer does not read, for longer than
+    // any drain timeout of the crate (5 s): its reply is still delivered once the peer reads
+    for k in 0..(if thorough { 2 } else { 1 }) {
+        let mut s = Script::new(Some(1), 0xd00);
+        let id = s.fresh(&mut rng); s.arrive(id, false, 'c');
+        s.exit(0, if k == 0 { "r" } else { "e1000" });
+        s.inline(&mut rng, false);
+        s.park(&mut rng, false);
+        s.exit(0, "r");
+        s.inline(&mut rng, false);
+        out.push(format!("{} oq=1 stallq={}", s.line(0), hx(5600)));
     }
     out.into_iter().enumerate().map(|(i, c)| format!("i={i} {c}")).collect()
 }
